@@ -40,7 +40,8 @@ Record project := {
   p_labels : list labelent;
   p_files : list (list str);    (* every regular file below srcdir (sources included) *)
   p_nitpick : list str;         (* targets t with ("myst", t) in nitpick_ignore *)
-  p_url_schemes : list str }.   (* keys of myst_url_schemes *)
+  p_url_schemes : list str;     (* keys of myst_url_schemes *)
+  p_dirhtml : bool }.           (* builder: false = html, true = dirhtml *)
 
 Fixpoint find_doc (ds : list docrec) (n : str) : option docrec :=
   match ds with
@@ -94,8 +95,18 @@ Definition is_readable (P : project) (loc : fsloc) : bool :=
 
 (* ---------- small string helpers ---------- *)
 
-Definition lower_c (c : N) : N := if (65 <=? c) && (c <=? 90) then c + 32 else c.
-Definition lower (s : str) : str := map lower_c s.    (* str.lower() on ASCII (O_ascii) *)
+(* str.lower(): ASCII by rule, the code points 128..591 from the table regenerated from the
+   running interpreter (Gen/C12Links.v, a code point may lower to several), others unchanged
+   (O_lower: generated label names stay below U+0250) *)
+Fixpoint assoc_N (c : N) (t : list (N * list N)) : option (list N) :=
+  match t with
+  | [] => None
+  | (k, v) :: r => if c =? k then Some v else assoc_N c r
+  end.
+Definition lower_c (c : N) : list N :=
+  if (65 <=? c) && (c <=? 90) then [c + 32]
+  else match assoc_N c gen_lower_table with Some v => v | None => [c] end.
+Definition lower (s : str) : str := flat_map lower_c s.
 
 Definition is_alpha (c : N) : bool := ((65 <=? c) && (c <=? 90)) || ((97 <=? c) && (c <=? 122)).
 Definition is_digit (c : N) : bool := (48 <=? c) && (c <=? 57).
@@ -140,7 +151,11 @@ Definition abs_str (P : project) (loc : fsloc) : str :=
 Record link := {
   l_dest : str;        (* href after markdown-it (normalizeLink/normalizeLinkText = id: O_mdurl) *)
   l_auto : bool;       (* token.info == "auto"  ( <scheme:...> ) *)
-  l_children : bool }. (* len(token.children) > 0 *)
+  l_children : bool;   (* len(token.children) > 0 *)
+  l_include : option (str * list str) }.
+    (* md_env["relative-docs"] when the link is in a file pulled in by {include} with
+       :relative-docs: prefix  -> (prefix, directory of the included file below srcdir);
+       source_dir is the directory of the including document *)
 
 Definition l_explicit (l : link) : bool := negb (l_auto l) && l_children l.
 
@@ -156,33 +171,66 @@ Inductive cls :=
 (* destination.split("#", maxsplit=1) -> path_dest, path_id *)
 Definition split_dest (dest : str) : str * option str := (before c_hash dest, after c_hash dest).
 
+Definition abs_dir_str (P : project) (dir : list str) : str :=
+  c_slash :: join s_slash (p_srcdir P ++ dir).
+
+(* SphinxRenderer._handle_relative_docs *)
+Definition handle_relative_docs (P : project) (d : docrec) (l : link) (dest : str) : str :=
+  match l_include l with
+  | None => dest
+  | Some (prefix, incdir) =>
+      if startswith dest prefix
+      then relpath (pjoin (abs_dir_str P incdir) [normpath dest]) (abs_dir_str P (d_dir d))
+      else dest
+  end.
+
+(* SphinxRenderer._abs_path: relfn2path raises ValueError on a NUL character -> None *)
+Definition has_nul (s : str) : bool := mem_N 0 s.
+Definition abs_path (P : project) (d : docrec) (path : str) : option fsloc :=
+  if has_nul path then None else Some (relfn2path (p_srcdir P) (d_dir d) path).
+
 Definition render_link_project (P : project) (d : docrec) (l : link) : cls :=
   let href := l_dest l in
   let dest := if startswith href (fst gen_project_prefix) then skipn (snd gen_project_prefix) href else href in
   if startswith dest s_hash then C_anchor dest
   else
+    let dest := handle_relative_docs P d l dest in
     let '(path_dest, path_id) := split_dest dest in
-    let loc := relfn2path (p_srcdir P) (d_dir d) path_dest in
-    match path2doc (p_suffixes P) loc with
-    | None => C_nofile (abs_str P loc) href
-    | Some docname => C_doc docname path_id
+    match abs_path P d path_dest with
+    | None => C_nofile path_dest href
+    | Some loc =>
+        match path2doc (p_suffixes P) loc with
+        | None => C_nofile (abs_str P loc) href
+        | Some docname => C_doc docname path_id
+        end
     end.
 
+(* render_link_path (after the repair: a local file that cannot be read is reported when the
+   link is rendered, like a missing document of a project: link) *)
 Definition render_link_path (P : project) (d : docrec) (l : link) : cls :=
   let href := l_dest l in
   let dest := if startswith href (fst gen_path_prefix) then skipn (snd gen_path_prefix) href else href in
-  C_download dest dest.
+  let dest := handle_relative_docs P d l dest in
+  if contains dest s_css then C_download dest dest
+  else match abs_path P d dest with
+       | None => C_nofile dest href
+       | Some loc => if is_readable P loc then C_download dest dest else C_nofile (abs_str P loc) href
+       end.
 
 Definition render_link_unknown (P : project) (d : docrec) (l : link) : cls :=
-  let dest := l_dest l in
+  let dest := handle_relative_docs P d l (l_dest l) in
   let '(path_dest, path_id) := split_dest dest in
-  let loc := relfn2path (p_srcdir P) (d_dir d) path_dest in
-  if is_file P loc then
-    match path2doc (p_suffixes P) loc with
+  if match abs_path P d path_dest with Some loc => is_file P loc | None => false end then
+    match path2doc (p_suffixes P) (relfn2path (p_srcdir P) (d_dir d) path_dest) with
     | Some docname => C_doc docname path_id
     | None => C_download path_dest path_dest
     end
-  else C_any dest.
+  else
+    (* a document referenced without its extension, with a heading anchor *)
+    match path_id, find_doc (p_docs P) (docname_join (d_name d) path_dest) with
+    | Some _, Some _ => C_doc (docname_join (d_name d) path_dest) path_id
+    | _, _ => C_any dest
+    end.
 
 Definition opt_str_eqb (o : option str) (s : str) : bool :=
   match o with Some x => str_eqb x s | None => false end.
@@ -228,21 +276,27 @@ Definition mk (t : tgt) (x : txt) (w : list warn) : outcome :=
   {| o_tgt := t; o_txt := x; o_warns := w |}.
 
 (* sphinx.util.nodes.make_refnode(builder, fromdocname, todocname, targetid, child) *)
-Definition make_refnode (from to tid : str) : tgt :=
+Definition make_refnode (dirhtml : bool) (from to tid : str) : tgt :=
   if str_eqb from to && nonempty tid then T_refid tid
-  else if nonempty tid then T_uri (get_relative_uri from to ++ s_hash ++ tid)
-  else T_uri (get_relative_uri from to).
+  else if nonempty tid then T_uri (get_relative_uri dirhtml from to ++ s_hash ++ tid)
+  else T_uri (get_relative_uri dirhtml from to).
 
 (* MystReferenceResolver.log_warning for XREF_MISSING (nitpick_ignore honoured) *)
 Definition log_missing (P : project) (target : str) : list warn :=
   if nonempty target && mem_str target (p_nitpick P) then [] else [W_missing target].
 
 (* resolve_myst_ref_doc *)
+Definition doc_target_text (ref_docname : str) (ref_id : option str) : str :=
+  match ref_id with
+  | Some i => if nonempty i then ref_docname ++ s_hash ++ i else ref_docname
+  | None => ref_docname
+  end.
+
 Definition resolve_myst_ref_doc (P : project) (from : str) (explicit : bool)
            (ref_docname : str) (ref_id : option str) : outcome :=
   match find_doc (p_docs P) ref_docname with
   | None =>
-      mk T_bare (if explicit then X_children else X_none) (log_missing P ref_docname)
+      mk T_bare (if explicit then X_children else X_lit ref_docname) (log_missing P ref_docname)
   | Some td =>
       let '(targetid, implicit, ws) :=
         match ref_id with
@@ -255,8 +309,10 @@ Definition resolve_myst_ref_doc (P : project) (from : str) (explicit : bool)
             else ([], d_title td, [])
         | None => ([], d_title td, [])
         end in
-      mk (make_refnode from ref_docname targetid)
-         (if explicit then X_children else X_str implicit) ws
+      mk (make_refnode (p_dirhtml P) from ref_docname targetid)
+         (if explicit then X_children
+          else if nonempty implicit then X_str implicit
+          else X_lit (doc_target_text ref_docname ref_id)) ws
   end.
 
 (* one candidate of resolve_myst_ref_any *)
@@ -274,14 +330,14 @@ Definition resolve_ref_nested (P : project) (from : str) (explicit : bool) (reft
   | Some e =>
       if explicit then
         if nonempty (lb_doc e)
-        then Some {| c_role := r_ref; c_tgt := make_refnode from (lb_doc e) (lb_id e); c_txt := X_children |}
+        then Some {| c_role := r_ref; c_tgt := make_refnode (p_dirhtml P) from (lb_doc e) (lb_id e); c_txt := X_children |}
         else None
       else
         match lb_sect e with
         | None => None
         | Some sect =>
             if nonempty (lb_doc e)
-            then Some {| c_role := r_ref; c_tgt := make_refnode from (lb_doc e) (lb_id e); c_txt := X_str sect |}
+            then Some {| c_role := r_ref; c_tgt := make_refnode (p_dirhtml P) from (lb_doc e) (lb_id e); c_txt := X_str sect |}
             else None
         end
   end.
@@ -293,7 +349,7 @@ Definition resolve_doc_nested (P : project) (from : str) (explicit : bool) (reft
   match find_doc (p_docs P) docname with
   | None => None
   | Some td =>
-      Some {| c_role := r_doc; c_tgt := make_refnode from docname [];
+      Some {| c_role := r_doc; c_tgt := make_refnode (p_dirhtml P) from docname [];
               c_txt := if explicit then X_children else X_str (d_title td) |}
   end.
 
